@@ -874,6 +874,8 @@ protected:
 		else {
 			x[0] = static_cast<double>(v);
 			x[1] = static_cast<double>(v - static_cast<int64_t>(x[0]));
+			x[2] = 0.0;
+			x[3] = 0.0;
 		}
 		return *this;
 	}
@@ -885,6 +887,8 @@ protected:
 		else {
 			x[0] = static_cast<double>(v);
 			x[1] = static_cast<double>(v - static_cast<uint64_t>(x[0]));  // difference is always positive
+			x[2] = 0.0;
+			x[3] = 0.0;
 		}
 		return *this;
 	}
